@@ -686,6 +686,100 @@ theorem C03_history_on_chip (hdr P : List UInt8) (c : SysCfg) (hc : c.cached = f
       | _ => exact absurd hadm id
 
 
+theorem SysCfg.NoReact.uncached {c : SysCfg} (h : c.NoReact) : c.uncached.NoReact := h
+
+/-- **C03 on the chip model, whole histories, cached build.** The same as `C03_history_on_chip` for
+    the build with the register cache, from any state whose cache is coherent: every step of the
+    cached system is observably the step of its uncached twin (C02), whose reception is followed
+    with `Receiving`. -/
+theorem C03_history_on_chip_cached (hdr P : List UInt8) (c : SysCfg) (hc : c.cached = true) (hnr : c.NoReact)
+    (hfuel : 64 ≤ c.fuel) (ops : List Op) (sc su : Sys) (sr : SR sc su) (g : RxG) (hr : Receiving hdr P su g)
+    (hcrc : g.crcOn = true → g.crcGood = true) (hauto : g.cfg1 &&& 0x08 ≠ 0)
+    (hadm : RxHist c g.crcGood sc g.pending g.over ops) : RxSeen P (Sys.run c sc ops).2 := by
+  induction ops generalizing sc su g with
+  | nil => trivial
+  | cons op rest ih =>
+    simp only [Sys.run]
+    unfold RxHist at hadm
+    cases op with
+    | env e =>
+      cases e with
+      | rxByte b =>
+        simp only at hadm
+        cases hp : g.pending with
+        | nil => rw [hp] at hadm; exact absurd hadm id
+        | cons b' tl =>
+          rw [hp] at hadm
+          obtain ⟨hb, hroom, hrest⟩ := hadm
+          subst hb
+          have hroom' : g.fifo.length ≤ 62 := by rw [← hr.chip.fifo, ← sr.chip]; exact hroom
+          obtain ⟨hr', _⟩ := hr.byte c.uncached b' tl hp hroom'
+          obtain ⟨h, _, hv⟩ := hr.handle
+          have hadv : g.Adv (g.arrive 1 false) := ⟨1, false, ⟨by rw [hp]; simp, by omega⟩, rfl⟩
+          have hs := (hv.adv hadv).2.1
+          have hpend : (g.arrive 1 false).pending = tl := by unfold RxG.arrive; simp [hp]
+          have hover : (g.arrive 1 false).over = g.over := by unfold RxG.arrive; simp [hp]
+          have hsim := step_sim c hc hnr.valid sc su sr (.env (.rxByte b')) trivial trivial rfl
+          right; left
+          refine ⟨rfl, ih _ _ (hsim.2 (fun u hu => by cases hu)) _ hr' ?_ ?_ ?_⟩
+          · unfold RxG.crcOn; rw [hs.cfg1, hs.crcGood]; exact hcrc
+          · rw [hs.cfg1]; exact hauto
+          · rw [hpend, hover, hs.crcGood]; exact hrest
+      | rxEnd ok =>
+        simp only at hadm
+        obtain ⟨hp, hov, hok, hrest⟩ := hadm
+        subst hok
+        obtain ⟨hr', _⟩ := hr.fin c.uncached hp hov hauto
+        obtain ⟨h, _, hv⟩ := hr.handle
+        have hadm0 : g.Adm 0 := ⟨Nat.zero_le _, by have := hr.chip.room; omega⟩
+        have hs := (hv.adv ⟨0, true, hadm0, rfl⟩).2.1
+        have hpend : (g.arrive 0 true).pending = [] := by unfold RxG.arrive; simp [hp]; split <;> rfl
+        have hover : (g.arrive 0 true).over = true := by unfold RxG.arrive; simp [hp, hov]
+        have hsim := step_sim c hc hnr.valid sc su sr (.env (.rxEnd g.crcGood)) trivial trivial rfl
+        right; left
+        refine ⟨rfl, ih _ _ (hsim.2 (fun u hu => by cases hu)) _ hr' ?_ ?_ ?_⟩
+        · unfold RxG.crcOn; rw [hs.cfg1, hs.crcGood]; exact hcrc
+        · rw [hs.cfg1]; exact hauto
+        · rw [hpend, hover, hs.crcGood]; exact hrest
+      | _ => exact absurd hadm id
+    | api a sched faults =>
+      cases a with
+      | irq =>
+        cases sched with
+        | cons _ _ => exact absurd hadm id
+        | nil =>
+          cases faults with
+          | cons _ _ => exact absurd hadm id
+          | nil =>
+            simp only at hadm
+            have hsim := step_sim c hc hnr.valid sc su sr (.api .irq [] []) ⟨rfl, rfl⟩ trivial (fun e he => by cases he)
+            have hun := hr.irq c.uncached rfl hnr.uncached hfuel
+            generalize hsc : sc.step c (.api .irq [] []) = stc at hsim hadm
+            generalize hsu : su.step c.uncached (.api .irq [] []) = stu at hsim hun
+            obtain ⟨sc', oc⟩ := stc
+            obtain ⟨su', ou⟩ := stu
+            cases oc with
+            | ub u => left; exact ⟨u, rfl⟩
+            | skipped => cases ou <;> simp [ObsRel] at hsim <;> exact absurd hun id
+            | env => cases ou <;> simp [ObsRel] at hsim <;> exact absurd hun id
+            | ret r cbs bus =>
+              cases ou with
+              | ret r' cbs' bus' =>
+                have hrel : r = r' ∧ cbs = cbs' ∧ _ := hsim.1
+                obtain ⟨_, hcbs, _⟩ := hrel
+                subst hcbs
+                have sr' := hsim.2 (fun u hu => by cases hu)
+                rcases hun with ⟨g', hr', e, _, _, hpe, hov, hs⟩ | ⟨e, _⟩ | ⟨_, hon, hbad, _⟩
+                · right; left
+                  refine ⟨e, ih sc' su' sr' g' hr' ?_ ?_ ?_⟩
+                  · unfold RxG.crcOn; rw [hs.cfg1, hs.crcGood]; exact hcrc
+                  · rw [hs.cfg1]; exact hauto
+                  · rw [hpe, hov, hs.crcGood]; exact hadm
+                · right; right; exact e
+                · rw [hcrc hon] at hbad; cases hbad
+              | _ => exact absurd hsim.1 (by simp [ObsRel])
+      | _ => exact absurd hadm id
+
 /-- non-vacuity: on the chip of the `Receiving` example, the three bytes of the frame `[2, 7, 9]`,
     the end-of-packet signal and a handler invocation form an admissible history -/
 example : RxHist { cached := false } true
